@@ -80,8 +80,18 @@ class GotranCCodePrinter(C99CodePrinter):
         return value
 
 
+# Names from math.h (and the boolean literals) that the printer can emit
+C_NAMES = frozenset(
+    "abs acos acosh asin asinh atan atan2 atanh cbrt ceil cos cosh erf erfc exp exp2 expm1 "
+    "fabs floor fma fmax fmin fmod hypot lgamma log log10 log1p log2 pow sin sinh sqrt tan tanh tgamma "
+    "M_E M_LOG2E M_LN2 M_LN10 M_PI M_PI_2 M_PI_4 M_1_PI M_2_PI M_2_SQRTPI M_SQRT2 M_SQRT1_2 "
+    "INFINITY NAN HUGE_VAL true false".split()
+)
+
+
 class CCodeGenerator(CodeGenerator):
     variable_prefix = "const double "
+    reserved_names = CodeGenerator.reserved_names | C_NAMES
 
     def __init__(
         self, ode: ODE, format: Format = Format.clang_format, remove_unused: bool = False
